@@ -93,3 +93,4 @@ Example C09_set_monitor_delegated_hypothesis_satisfiable :
   existsb (fun e => match e with SPhase (PPause 10001%N true _) => true | _ => false end)
           (sc_events (set_obs_s x_pause_case (SetCorr.model_run x_pause_case))) = true.
 Proof. exact m09d_hypothesis_satisfiable. Qed.
+Print Assumptions C09_set_monitor_delegated_hypothesis_satisfiable.
